@@ -749,6 +749,10 @@ def check_index_space(prog, rep, fs, entry_of):
                     last = idx.elts[-1] if isinstance(idx, ast.Tuple) else idx
                     if isinstance(last, ast.Name) and last.id in space and last.id in perms:
                         return space[last.id]          # gathered by a permutation: lives in the permutation's space
+                    if isinstance(last, ast.Slice) and not (last.lower is None and last.upper is None) and last.step is None:
+                        # a positional cut: [lo:hi] of the sorted order
+                        return 'S(%s|%s:%s)' % (sp(e.value), vtext(last.lower) if last.lower is not None else '',
+                                                vtext(last.upper) if last.upper is not None else '')
                     if isinstance(last, ast.Call) and short(last) in ('isfinite', 'isnan', 'logical_and') or \
                             isinstance(last, (ast.Compare, ast.BinOp, ast.UnaryOp)):
                         return 'F(%s|%s)' % (sp(e.value), vtext(last))
@@ -825,11 +829,27 @@ def check_index_space(prog, rep, fs, entry_of):
         offs = [g for g in got if isinstance(g, tuple)]
         arrays = [g for g in got if not isinstance(g, tuple)]
         ok = bool(offs) and all(a == offs[0][1] for a in arrays) and len(arrays) >= 1
+        why_ = ''
+        if ok:
+            # ... and that filter is a test of the VALUES for finiteness: in the sorted order NaN and +inf form a tail but
+            # -inf cells come first, so a cut at a position (`[:n_finite]`) keeps them
+            zs = str(offs[0][1])
+            valued = 'isfinite' in zs or ('isnan' in zs and 'isinf' in zs)
+            if not valued:
+                import re as _re
+                cuts = _re.findall(r'S\([^|]*\|([^:]*):', zs)
+                if 'S(' not in zs or all(c_ == '' for c_ in cuts):
+                    ok = False
+                    why_ = '; the zone vector reaches the stride routine %s: -inf zone cells sort FIRST and stay in' % (
+                        'cut at a position from the end only' if 'S(' in zs else 'without a finiteness test')
+                else:
+                    ok = None
+                    why_ = '; the zone vector is cut at positions on both ends: whether that removes exactly the non-finite cells is not decided'
         n += 1
         rep.add('Z4b', f, entry_of(f), 'return %s: index spaces %s' % (norm(rets[-1].value), got), rets[-1].lineno, ok,
                 'segment offsets are computed on the zone vector AFTER a finite filter, so every array they slice (the '
                 'gathered values, the permutation) must have gone through the same filter; otherwise a -inf zone cell '
-                '(sorted first) shifts every segment by one')
+                '(sorted first) shifts every segment by one' + why_)
     return n
 
 
